@@ -147,8 +147,8 @@ func runLockstep(c *progCase, synth *rig.Synth, impls []rig.CPU, stats *lockstep
 			if p != nil {
 				return fmt.Errorf("step %d %s: %s panicked: %v (state before: %+v)", k, what, cpu.Name(), p, pre)
 			}
-			if mems[i].OOR > 0 {
-				return fmt.Errorf("step %d %s: %s issued a bus access at $%X (>= 2^24) (state before: %+v)", k, what, cpu.Name(), mems[i].OORAdr, pre)
+			if f := mems[i].BusFault(); f != "" {
+				return fmt.Errorf("step %d %s: %s %s (state before: %+v)", k, what, cpu.Name(), f, pre)
 			}
 			got := cpu.Arch()
 			want := model
